@@ -415,6 +415,11 @@ def judge_c18(d):
     return None
 
 
+def judge_c20(d):
+    q, impl, model = d["query"], d["impl"], d["model"]
+    return "scrubber output differs from the model: printed %s, expected %s" % (impl[:160], model[:160])
+
+
 PROPS = {
     "C03": dict(
         suites=["c03"],
@@ -670,5 +675,26 @@ PROPS = {
                  "exercised by the loopback-origin run); HTTP/3 reverse proxy not driven",
                  "100 MiB downloads are run in the thorough tier only"],
         assumptions=["'/+5mb.bin' and '/05mb.bin' are accepted as 5 MiB (Rust integer syntax): not asserted either way"],
+    ),
+    "C20": dict(
+        suites=["c20"],
+        judge=judge_c20,
+        level="proof",
+        rule="(a) every logging call and every format! of lib/src (tests and the verification door excluded) is re-extracted with the "
+             "expressions it prints and classified by the taint rules of tools/extract.py; the Lean theorem all_log_sites_clean is "
+             "re-decided over that table; (b) scrub_request / scrub_sni on 2000 random header lists and 10 SNIs versus the model; "
+             "(c) ~435 scenarios at trace level with a capturing logger: every combination of 3 SNI-credential situations x 7 "
+             "credential header sets (valid, wrong, Bearer, raw, non-ASCII, + Authorization and Cookie) x 10 request kinds (health, UDP, "
+             "ICMP, wrong method, connect ok / no port / refused / policy, GET, POST) x {HTTP/1.1, HTTP/2}, the connection-meta and "
+             "refused-SNI lines, ping / speedtest / bad speedtest / upload and a reverse-proxy exchange with secrets in the request; "
+             "every captured line is searched for 13 canaries (raw values, base64 tokens, SNI labels, the configured password)",
+        explanation="theorems scrub_request_hides (non-interference), scrubbed_values_are_placeholders, scrub_keeps_other_headers, "
+                    "scrub_adds_nothing, scrub_sni_hides_label, meta_debug_hides_creds about TT/Model/Scrub.lean; all_log_sites_clean over the "
+                    "regenerated TT/Gen/LogSites.lean",
+        trusted=["the taint rules of tools/extract.py (which expressions carry secrets, which wrappers make them safe, per-file "
+                 "exceptions) - whole-program absence of leaks rests on them plus the dynamic search, not on a theorem about the code",
+                 "HTTP/3 and SOCKS5 paths are covered by the site table only, not by scenarios",
+                 "the `http` crate prints header maps through Debug as the scenarios observe"],
+        assumptions=["a first label of an SNI that designates no host is scrubbed as potential credentials"],
     ),
 }
